@@ -66,6 +66,8 @@ def check(ctx):
                 ctx.violation(f"[{v}] scenario '{s['scenario']}': {b}", None)
             for b in s.get("f13", []):
                 ctx.known("F13", f"[{v}] scenario '{s['scenario']}': {b}")
+            for b in s.get("f14", []):
+                ctx.known("F14", f"[{v}] scenario '{s['scenario']}': {b}")
             for t in s["traces"]:
                 traces.append(t)
                 owners.append((v, s["scenario"]))
